@@ -669,6 +669,8 @@ struct Gen<'a> {
     p: Project,
     fn_counter: usize,
     addr_counter: usize,
+    /// Naming scheme of the project's items (swarm).
+    names: usize,
 }
 
 const CCS: [&str; 7] = [
@@ -684,6 +686,20 @@ const CCS: [&str; 7] = [
 impl<'a> Gen<'a> {
     fn pct(&mut self, p: usize) -> bool {
         self.rng.below(100) < p
+    }
+
+    /// Item names: plain (`T3`), every name a prefix of the next (`Foo`, `FooX`, `FooXX`), or
+    /// types and enums that differ only in case (`Node3` / `NODE4`).
+    fn item_name(&self, kind: char, idx: usize) -> String {
+        match self.names {
+            1 => format!("Foo{}", "X".repeat(idx)),
+            2 => match kind {
+                'T' => format!("Node{idx}"),
+                'E' => format!("NODE{idx}"),
+                _ => format!("node{idx}"),
+            },
+            _ => format!("{kind}{idx}"),
+        }
     }
 
     fn fresh_addr(&mut self) -> usize {
@@ -852,7 +868,7 @@ impl<'a> Gen<'a> {
         let (s, a) = self.p.ty_size_align(&Ty::Prim(base));
         Item {
             module: m,
-            name: format!("E{idx}"),
+            name: self.item_name('E', idx),
             vis: self.rng.chance(4, 5),
             doc: self.doc(),
             kind: ItemKind::Enum {
@@ -876,7 +892,7 @@ impl<'a> Gen<'a> {
         let size = align * self.rng.range(0, 6);
         Item {
             module: m,
-            name: format!("X{idx}"),
+            name: self.item_name('X', idx),
             vis: true,
             doc: None,
             kind: ItemKind::Extern { size, align },
@@ -1133,7 +1149,7 @@ impl<'a> Gen<'a> {
 
         Item {
             module: m,
-            name: format!("T{idx}"),
+            name: self.item_name('T', idx),
             vis: self.rng.chance(4, 5),
             doc: self.doc(),
             kind: ItemKind::Type {
@@ -1161,11 +1177,23 @@ impl<'a> Gen<'a> {
 pub fn module_paths(rng: &mut Rng, n: usize, max_depth: usize) -> Vec<Vec<String>> {
     let mut paths: Vec<Vec<String>> = vec![];
     for k in 0..n {
-        let depth = rng.below(max_depth + 1);
-        let mut p: Vec<String> = (0..depth)
-            .map(|d| format!("d{}{}", d, rng.below(2)))
-            .collect();
-        p.push(format!("m{k}"));
+        // Plain directories, or nested under the path of an earlier module (`m0.pyxis` next to
+        // `m0/m3.pyxis`: a directory and a file with the same stem side by side).
+        let mut p: Vec<String> = if k > 0 && rng.chance(1, 5) {
+            paths[rng.below(k)].clone()
+        } else {
+            let depth = rng.below(max_depth + 1);
+            (0..depth)
+                .map(|d| format!("d{}{}", d, rng.below(2)))
+                .collect()
+        };
+        let stem = match rng.below(6) {
+            0 => format!("mod_{k}"),
+            1 => format!("m{k}_2x"),
+            2 => format!("M{k}"),
+            _ => format!("m{k}"),
+        };
+        p.push(stem);
         paths.push(p);
     }
     paths
@@ -1195,7 +1223,9 @@ pub fn gen_valid(rng: &mut Rng, cfg: &GenCfg, ptr: usize) -> Project {
         },
         fn_counter: 0,
         addr_counter: 0x1000,
+        names: 0,
     };
+    g.names = *g.rng.pick(&[0usize, 0, 0, 1, 2]);
     let nitems = g.cfg.max_items;
     for idx in 0..nitems {
         let m = g.rng.below(nmod);
